@@ -62,6 +62,26 @@ async def decorated(*a, **kw):
     return None
 
 
+async def mutate(*a, **kw):
+    """A worker that empties the containers it is given (after logging them)."""
+    _log("mutate", a, kw)
+    for x in a:
+        if isinstance(x, list):
+            x.clear()
+    return None
+
+
+class _Holder:
+    async def run(self, *a, **kw):
+        _log("holder.run", a, kw)
+        return None
+
+
+holder = _Holder()      # "ctlfuncs.holder.run" names a bound method
+Quick = object()        # siblings that differ from a function's name in case only
+WORK = 1
+
+
 def plain(*a, **kw):
     """Not a coroutine function."""
     _log("plain", a, kw)
